@@ -41,7 +41,7 @@ Proof. exact purge_all. Qed.
    size-based retention, cache eviction, polls with auto-commit, consumer-offset operations, topic-setting changes), for
    every configuration with a positive segment size, as long as offsets stay below 2^32 (the index stores 32-bit relative
    offsets) and no message expiry is configured (expiry-based retention depends on the read path and on monotone time: not
-   covered by this theorem - that part of C01_full / C14_full remains stated only):
+   covered by THIS theorem - with expiry: C01_history_expiry_partial and C01_refinement below):
    the stored messages are ONE gap-free, duplicate-free run starting at the first segment's start offset, and the next offset
    to be assigned is the one right after its last message - also after restarts and after retention emptied the partition. *)
 Theorem C01_history_partial : forall ops c t0, good_cfg c -> Forall no_expiry_op ops ->
